@@ -2,7 +2,8 @@ from run import Family
 
 BOUNDS = {'stack step': 'one line of each kind (begin known / begin unknown / end / text / comment) from every depth 0..254, depth symbolic within each capacity class (capacity 20, 40, 80, 160, and above 160 whatever the growth step of the code itself produces); two registered contexts; handler states symbolic',
           'files': 'every file of 0..3 lines (quick) / 0..4 (thorough) over {comment, begin one, begin two, begin zz, end, text} after the magic line, through fopen/fgets/fclose stubs',
-          'outside': '%include trees (file-stack step is checked in C11), %preproc, backquotes'}
+          'include': 'a main file of 0..2 lines with one %include at every position, included file of 0..2 lines (main+included <= 2 lines: all; 3: every sixth in quick; 4: a ninth, thorough only)',
+          'outside': 'nested %include (the file-stack step is checked in C11), %preproc, backquotes'}
 RULE = 'C09 shapes: (capacity class, line kind) with symbolic depth; (number of lines, line-kind code) for whole files.'
 ASSUMPTIONS = ['handlers are harness functions that log (context, BEGIN/END/text, state in) and return a fresh symbolic state',
                'value expansion of ordinary lines is the real spifconf_shell_expand (C10 owns its correctness)']
@@ -27,4 +28,13 @@ def families(tier):
             if q and n == 3 and code % 6 != 1:
                 continue            # quick: all files of up to 2 lines and every sixth 3-line file (40 s each); all of them in thorough
             g.add('C09/file/lines=%d,code=%d' % (n, code), 'h_file', n, code)
-    return [f, g]
+    h = Family('include', 'c09_conf.c', unwind=22, cap=(200, 4) if q else (600, 8), **COMMON)
+    for nmain in range(0, 3):
+        for mcode in range(6 ** nmain):
+            for pos in range(0, nmain + 1):
+                for ninc in range(0, 3):
+                    for icode in range(6 ** ninc):
+                        idx = ((mcode * 7 + pos) * 37 + icode) * 3 + ninc
+                        if nmain + ninc <= 2 or (nmain + ninc == 3 and (not q or idx % 6 == 0)) or (nmain + ninc == 4 and not q and idx % 9 == 0):
+                            h.add('C09/include/main=%d:%d,at=%d,inc=%d:%d' % (nmain, mcode, pos, ninc, icode), 'h_include', nmain, mcode, pos, ninc, icode)
+    return [f, g, h]
